@@ -86,7 +86,7 @@ pub enum Ev {
     /// A port send operation: `msg` is the fresh identifier given to the
     /// message(s) of this operation.
     SendBegin { actor: Actor, port: u16, msg: u64, kind: u8, query: bool, salt: u32, ttl: u8 },
-    SendEnd { actor: Actor, port: u16, msg: u64, replies: Vec<(u16, u64, u32)> },
+    SendEnd { actor: Actor, port: u16, msg: u64, replies: Vec<(u16, u64, u32, u32)> },
     /// A scheduling request and its result. `sid` is a fresh action
     /// identifier, `deadline` the absolute deadline computed by the harness
     /// from the time it read just before the call (`now`).
@@ -98,7 +98,7 @@ pub enum Ev {
     CmdBegin { idx: u16, cmd: String, time: T },
     CmdEnd { idx: u16, res: Res, time: T, next_deadline: Option<T> },
     ClockSync { time: T, answer_lag: Option<u64> },
-    SinkRead { sink: u16, items: Vec<(u64, u32)> },
+    SinkRead { sink: u16, asked: u8, items: Vec<(u64, u32)> },
     SinkCtl { sink: u16, open: bool },
     SinkWrite { sink: u16, msg: u64, via: u32, salt: u32 },
     Trace(TraceEv),
